@@ -91,7 +91,7 @@ class Integer:
         return isinstance(other, Number) and self.value == other.value
 
     def as_key(self) -> typing.Generator[Value, StrictValue, int]:
-        return hash(self.value)
+        return self.value
         yield
 
     def format(self) -> typing.Generator[Value, StrictValue, str]:
@@ -107,7 +107,7 @@ class Float:
         return isinstance(other, Number) and self.value == other.value
 
     def as_key(self) -> typing.Generator[Value, StrictValue, int]:
-        return hash(self.value)
+        return self.value
         yield
 
     def format(self) -> typing.Generator[Value, StrictValue, str]:
@@ -120,7 +120,7 @@ class Boolean:
     value: bool
 
     def as_key(self) -> typing.Generator[Value, StrictValue, int]:
-        return hash(("평범한 한글/논릿값", self.value))
+        return ("평범한 한글/논릿값", self.value)
         yield
 
     def format(self) -> typing.Generator[Value, StrictValue, str]:
@@ -144,7 +144,7 @@ class List:
             for item in self.value:
                 item = yield item
                 keys.append((yield from item.as_key()))
-            self._key = hash(("평범한 한글/목록", tuple(keys)))
+            self._key = ("평범한 한글/목록", tuple(keys))
         return self._key
 
     def format(self) -> typing.Generator[Value, StrictValue, str]:
@@ -162,7 +162,7 @@ class String:
     value: str
 
     def as_key(self) -> typing.Generator[Value, StrictValue, int]:
-        return hash(("평범한 한글/문자열", self.value))
+        return ("평범한 한글/문자열", self.value)
         yield
 
     def format(self) -> typing.Generator[Value, StrictValue, str]:
@@ -178,7 +178,7 @@ class Bytes:
     )
 
     def as_key(self) -> typing.Generator[Value, StrictValue, int]:
-        return hash(("평범한 한글/바이트열", self.value))
+        return ("평범한 한글/바이트열", self.value)
         yield
 
     def format(self) -> typing.Generator[Value, StrictValue, str]:
@@ -207,7 +207,7 @@ class ErrorValue:
             for item in self.value:
                 item = yield item
                 keys.append((yield from item.as_key()))
-            self._key = hash(("평범한 한글/예외", tuple(keys)))
+            self._key = ("평범한 한글/예외", tuple(keys))
         return self._key
 
     def format(self) -> typing.Generator[Value, StrictValue, str]:
@@ -223,7 +223,7 @@ class ErrorValue:
 @dataclasses.dataclass
 class Nil:
     def as_key(self) -> typing.Generator[Value, StrictValue, int]:
-        return hash(("평범한 한글/빈값", None))
+        return ("평범한 한글/빈값", None)
         yield
 
     def format(self) -> typing.Generator[Value, StrictValue, str]:
@@ -253,7 +253,7 @@ class Complex:
         return "{}{}{}i".format(re_str if re else "", minus_str, im_str)
 
     def as_key(self) -> typing.Generator[Value, StrictValue, int]:
-        return hash(self.value)
+        return self.value
         yield
 
     def format(self) -> typing.Generator[Value, StrictValue, str]:
@@ -277,7 +277,7 @@ class Dict:
             for key, value in self.mapping.items():
                 v = yield from (yield value).as_key()
                 keys.append((key, v))
-            self._key = hash(("평범한 한글/사전", frozenset(keys)))
+            self._key = ("평범한 한글/사전", frozenset(keys))
         return self._key
 
     def format(self) -> typing.Generator[Value, StrictValue, str]:
@@ -321,7 +321,7 @@ class IO:
             for item in self._argv:
                 item = yield item
                 keys.append((yield from item.as_key()))
-            self._key = hash(("평범한 한글/드나듦", self._inst, tuple(keys)))
+            self._key = ("평범한 한글/드나듦", self._inst, tuple(keys))
         return self._key
 
     def format(self) -> typing.Generator[Value, StrictValue, str]:
@@ -339,7 +339,7 @@ class Function(abc.ABC):
         self._str = f"<{adj} 함수>"
 
     def as_key(self) -> typing.Generator[Value, StrictValue, int]:
-        return hash(("평범한 한글/함수", id(self)))
+        return ("평범한 한글/함수", id(self))
         yield
 
     def format(self) -> typing.Generator[Value, StrictValue, str]:
